@@ -537,11 +537,14 @@ def programs_c06():
     return progs
 
 
-def conc_check(chk, programs, dfs_runs, rnd_runs, preempt, family_owner=None):
+def conc_check(chk, programs, dfs_runs, rnd_runs, preempt, family_owner=None, sched_mode=False):
     """Executes the programs under the controlled scheduler (all schedules up to the preemption bound, capped, plus
     seeded random ones), then lets TLC decide whether every recorded history is linearizable w.r.t. the promise."""
-    execs = vlib.run_conc(programs, mode="dfs", runs=dfs_runs, preempt=preempt)
-    execs += vlib.run_conc(programs, mode="random", runs=rnd_runs)
+    if sched_mode:
+        execs = vlib.run_conc(programs, mode="sched", runs=1, preempt=0)
+    else:
+        execs = vlib.run_conc(programs, mode="dfs", runs=dfs_runs, preempt=preempt)
+        execs += vlib.run_conc(programs, mode="random", runs=rnd_runs)
     by_outcome = {}
     hist, meta = [], []
     for e in execs:
@@ -562,6 +565,24 @@ def conc_check(chk, programs, dfs_runs, rnd_runs, preempt, family_owner=None):
             raise Inconclusive("execution of %s ended as %s: %s" % (e.get("program"), e["outcome"], e.get("detail")))
         hist.append(e["history"])
         meta.append(e)
+        # binding of FsDbConc.tla: what every actor got in the real execution is what the model says for this schedule
+        exp = next((p.get("expect") for p in programs if p["name"] == e["program"] and "expect" in p), None)
+        if exp is not None:
+            calls = {x["id"]: x for x in e["history"] if x["e"] == "call"}
+            got = {}
+            for x in e["history"]:
+                if x["e"] != "ret" or calls[x["id"]]["a"] in ("setup", "final"):
+                    continue
+                c = calls[x["id"]]
+                if c["op"] == "get":
+                    v = (x["vs"] or [0])[0] if x["res"] == "ok" else 0
+                    v = 100 if 100 < v < 200 else 200 if 200 < v < 300 else v
+                    got.setdefault(c["a"], []).append(v if c["a"] == "A" else {"k": int(c["k"][1:]), "v": v})
+                elif c["op"] in ("commit", "set"):
+                    got.setdefault(c["a"], []).append(x["res"])
+            for a, want in exp.items():
+                if a != "G" and got.get(a, []) != want:
+                    chk.drift += 1
     st, tr, rej = vlib.linearise(hist, dict(Keys={"k1", "k2"}, AllowedDev=set(allowed_dev())))
     chk.states += st
     chk.transitions += tr
@@ -708,18 +729,89 @@ SCHEDULE_SIGNATURES = {
 }
 
 
+def l2_program(consts, name):
+    """The client program (setup + actors) that corresponds to a configuration of FsDbConc.tla."""
+    keys = sorted(consts["Keys"])
+    old = consts["OldVersions"]
+    setup = []
+    for k in keys:
+        for i in range(1, old + 1):
+            setup.append(O("set", 0, "k%d" % k, 10 * k + i))
+    actors = []
+    for c, ws, lv, t, val in (("C1", consts["WS1"], consts["L1"], 1, 100), ("C2", consts["WS2"], consts["L2"], 2, 200)):
+        if ws:
+            setup.append(O("begin", t, l=lv))
+    for c, ws, lv, t, val in (("C1", consts["WS1"], consts["L1"], 1, 100), ("C2", consts["WS2"], consts["L2"], 2, 200)):
+        if ws:
+            for k in sorted(ws):
+                setup.append(O("set", t, "k%d" % k, val + k))
+            actors.append({"name": c, "ops": [O("commit", t)]})
+    if consts["WithR"]:
+        reads = [O("get", 3, "k%d" % k) for k in keys] * 2
+        actors.append({"name": "R", "ops": [O("begin", 3, l="RR")] + reads})
+    if consts["WithW"]:
+        actors.append({"name": "W", "ops": [O("set", 0, "k%d" % consts["WKey"], 300)]})
+    if consts["WithA"]:
+        actors.append({"name": "A", "ops": [O("get", 0, "k%d" % consts["WKey"])]})
+    if consts["WithG"]:
+        actors.append({"name": "G", "ops": [O("gc")]})
+    return {"name": name, "family": "L2", "keys": ["k%d" % k for k in keys], "setup": setup, "actors": actors,
+            "ignore": ["wpool.send.enter", "wpool.send.check", "wpool.send.direct", "wpool.worker.recv", "wpool.worker.done"]}
+
+
+def l2_stage(chk, name, consts, sample=60):
+    """FsDbConc.tla (code grain): TLC checks C06/C07/C08 on every interleaving of the gate-to-gate segments; every
+    counterexample and a sample of the complete schedules are replayed step by step on the real code, whose history is
+    then judged (linearisation against the promise; recorded defects are recognised by their schedule)."""
+    wd = vlib.scratch("l2")
+    try:
+        cfg = os.path.join(wd, name + ".cfg")
+        vlib.write_cfg(cfg, consts, view="View", action_constraint="EmitEndA",
+                       invariants=("XFirstCommitterWins", "XConsistentSnapshot", "XAtomicRead"))
+        emitted = os.path.join(wd, "emitted.ndjson")
+        r = vlib.run_tlc("FsDbConc.tla", cfg, wd, timeout=1500, emit_to=emitted, extra_args=("-continue",))
+        st = chk.add_tlc("l2_" + name, r, consts)
+        scheds = [json.loads(c)[0] for c in r.cex]
+        st["design_counterexamples"] = len(scheds)
+        rnd = random.Random(vlib.seed() * 31 + len(chk.stages))
+        full = [json.loads(l)[0] for l in open(emitted) if l.strip()]
+        if len(full) > sample:
+            full = rnd.sample(full, sample)
+        progs = []
+        for i, sc in enumerate(scheds[:20] + full):
+            p = l2_program(consts, "%s_%d" % (name, i))
+            p["schedule"] = sc["sched"]
+            p["family"] = "L2cex" if i < len(scheds[:20]) else "L2"
+            p["expect"] = sc["res"]
+            progs.append(p)
+        if progs:
+            conc_check(chk, progs, 1, 0, 0, sched_mode=True)
+        st["schedules_replayed"] = len(progs)
+    finally:
+        shutil.rmtree(wd, ignore_errors=True)
+
+
+L2_BASE = dict(Keys={1, 2}, WS1=set(), WS2=set(), L1="RC", L2="RR", WithR=False, WithW=False, WithA=False, WithG=False, WKey=1, OldVersions=1)
+
+
 def c06(chk):
     quick = chk.tier == "quick"
+    l2_stage(chk, "reader_writer_gc", dict(L2_BASE, WithW=True, WithA=True, WithG=True, OldVersions=2))
     conc_check(chk, programs_c06(), 160 if quick else 1500, 16 if quick else 200, 2 if quick else 3)
 
 
 def c07(chk):
     quick = chk.tier == "quick"
+    l2_stage(chk, "two_committers", dict(L2_BASE, WS1={1}, WS2={1}, L1="RR"))
+    l2_stage(chk, "two_committers_2keys", dict(L2_BASE, WS1={1, 2}, WS2={2}, L1="RR"))
+    l2_stage(chk, "committers_writer", dict(L2_BASE, WS1={1}, WS2={1}, L1="RR", WithW=True))
     conc_check(chk, programs_c07(), 60 if quick else 800, 12 if quick else 150, 2 if quick else 3)
 
 
 def c08(chk):
     quick = chk.tier == "quick"
+    l2_stage(chk, "begin_vs_commit", dict(L2_BASE, WS1={1, 2}, WithR=True))
+    l2_stage(chk, "begin_vs_gc", dict(L2_BASE, WithR=True, WithW=True, WithG=True, OldVersions=2))
     conc_check(chk, programs_c08(), 60 if quick else 800, 12 if quick else 150, 2 if quick else 3)
 
 
